@@ -530,3 +530,41 @@ pub fn illegal_ordered_read_native(_x: u8) -> u32 {
     let _ = chunks.finalize();
     1
 }
+
+/// Native replay body for the E2 query `e2_sendstream_reset_legality` (C11), on a real `StreamsState`: a
+/// stream is written (two frames), finished, and only the FIN-carrying frame is acknowledged - the first frame
+/// is still outstanding, the sending half is not finished.  `reset()` must still work (and queue RESET_STREAM);
+/// only a second `reset()` is refused.
+pub fn reset_after_fin_acked_native(_x: u8) -> u32 {
+    use super::state::verif::{mk_streams, Scalars};
+    let mut st = mk_streams(&Scalars { max: [10, 10], max_data: 1 << 20, send_window: 1 << 20, ..Default::default() });
+    let mut pending = Retransmits::default();
+    let conn_state = crate::connection::State::Established;
+    let id = {
+        let mut s = Streams { state: &mut st, conn_state: &conn_state };
+        s.open(Dir::Uni).expect("stream credit available")
+    };
+    st.send.get_mut(&id).map(get_or_insert_send(VarInt::from_u32(1 << 16)));
+    {
+        let mut ss = SendStream { id, state: &mut st, pending: &mut pending, conn_state: &conn_state };
+        assert!(ss.write(&[7u8; 2000]).unwrap_or(0) == 2000);
+        ss.finish().expect("finish succeeds");
+    }
+    let mut sent: Vec<frame::StreamMeta> = Vec::new();
+    for _ in 0..4 {
+        let mut buf = Vec::new();
+        for m in st.write_stream_frames(&mut buf, 1200, false) {
+            sent.push(m);
+        }
+    }
+    assert!(sent.len() >= 2 && sent.last().map(|m| m.fin) == Some(true));
+    // only the last frame (with the FIN) is acknowledged
+    st.received_ack_of(sent.last().unwrap().clone());
+    assert!(st.send.contains_key(&id), "the stream is not finished: its first frame is unacknowledged");
+    let mut ss = SendStream { id, state: &mut st, pending: &mut pending, conn_state: &conn_state };
+    assert!(ss.reset(VarInt::from_u32(9)).is_ok(), "reset refused on a stream that is still open (FIN acknowledged, data outstanding)");
+    assert!(ss.reset(VarInt::from_u32(9)).is_err(), "a second reset must be refused");
+    drop(ss);
+    assert!(pending.reset_stream.len() == 1, "RESET_STREAM was not queued exactly once");
+    1
+}
